@@ -114,7 +114,7 @@ func (i *Interp) spawn(fr *frame, pos token.Pos, fn value, args []value) {
 		}()
 		i.call(nil, pos, fn, args)
 	}()
-	if i.symSched {
+	if i.symSched || i.preemptBudget > 0 {
 		i.yield(nil)
 	}
 }
@@ -155,6 +155,22 @@ func (i *Interp) yield(cond func() bool) {
 	if i.symSched && len(cands) > 1 {
 		k := i.chooseIndex(len(cands))
 		next = cands[k]
+	} else if cond == nil && !i.symSched && i.preemptBudget > 0 && len(cands) > 1 {
+		// preemption-bounded scheduling: the running thread continues (alternative 0) or is
+		// preempted in favour of another runnable thread, which uses up one unit of the budget
+		others := make([]*thread, 0, len(cands))
+		for _, t := range cands {
+			if t != cur {
+				others = append(others, t)
+			}
+		}
+		k := i.chooseIndex(len(others) + 1)
+		if k == 0 {
+			next = cur
+		} else {
+			next = others[k-1]
+			i.preemptBudget--
+		}
 	} else if cond == nil && !i.symSched {
 		next = cur
 	} else {
@@ -270,7 +286,7 @@ func (i *Interp) mutex(p *value) *mstate {
 
 func (i *Interp) lock(p *value) {
 	m := i.mutex(p)
-	if i.symSched {
+	if i.symSched || i.preemptBudget > 0 {
 		i.yield(nil)
 	}
 	if m.locked || m.readers > 0 {
@@ -301,7 +317,7 @@ func (i *Interp) unlock(fr *frame, p *value) {
 
 func (i *Interp) rlock(p *value) {
 	m := i.mutex(p)
-	if i.symSched {
+	if i.symSched || i.preemptBudget > 0 {
 		i.yield(nil)
 	}
 	if m.locked {
@@ -332,7 +348,7 @@ func (i *Interp) chanSend(fr *frame, c *channel, v value) {
 	if c == nil {
 		i.yield(func() bool { return false })
 	}
-	if i.symSched {
+	if i.symSched || i.preemptBudget > 0 {
 		i.yield(nil)
 	}
 	if c.closed {
@@ -371,7 +387,7 @@ func (i *Interp) chanRecv(fr *frame, c *channel, commaOk bool) value {
 	if c == nil {
 		i.yield(func() bool { return false })
 	}
-	if i.symSched {
+	if i.symSched || i.preemptBudget > 0 {
 		i.yield(nil)
 	}
 	if len(c.buf) == 0 && !c.closed {
@@ -444,7 +460,7 @@ func (i *Interp) doSelect(fr *frame, instr *ssa.Select) value {
 		}
 		return r
 	}
-	if i.symSched {
+	if i.symSched || i.preemptBudget > 0 {
 		i.yield(nil)
 	}
 	rs := ready()
